@@ -102,6 +102,50 @@ def turnsOf (server : Nat → List Item) : Nat → List Item → List (List Item
       | none => [body]
       | some p => body :: turnsOf server fuel (server p)
 
+/-! ## producers that read their tick
+
+`process(input, …)` receives a tick batch.  Over HTTP the FIRST `process()` of the `/init` turn gets the init request's
+Arrow metadata as the tick's `custom_metadata` (application keys such as `vgi.cache.if_none_match` ride there); every
+other call — later calls of the same turn, every call of a continuation turn — gets the empty `_TICK_BATCH`.  A tick is
+modelled by the one bit a producer can tell apart: does it carry the init request's metadata.  A reactive producer has,
+at every position, the step it plays on an empty tick and the step it plays on a metadata-carrying one.
+Which tick each call gets comes from `Gen.C11` (`initFirstTick`, `contFirstTick`, `tickAfterProcess`). -/
+
+structure RStep where
+  plain : Step          -- played on the empty tick
+  hinted : Step         -- played on a tick that carries the init request's metadata
+deriving Repr
+
+def RStep.play (s : RStep) (carriesInitMd : Bool) : Step := if carriesInitMd then s.hinted else s.plain
+
+/-- `_run_http_producer_turn` for a reactive producer: `tick` is what the next `process()` receives -/
+def turnT (cap : Option Nat) (sz : Item → Nat) : Bool → Nat → Nat → List RStep → List Item
+  | _, _, _, [] => []
+  | tick, told, pos, s :: r =>
+      match processStep (s.play tick) with
+      | .cont items =>
+          items ++ (if Gen.C11.mintWhen (Gen.C11.shouldContinue cap (told + bytes sz items))
+                    then [.token (pos + 1)]
+                    else turnT cap sz (Gen.C11.tickAfterProcess tick) (told + bytes sz items) (pos + 1) r)
+      | .done items => items
+      | .fail items => items
+
+/-- the script a turn plays when only its first call sees the turn's first tick -/
+def resolve (tick : Bool) : List RStep → List Step
+  | [] => []
+  | s :: r => s.play tick :: r.map (·.plain)
+
+def serveT (pool : Nat → Option Nat) (sz : Item → Nat) (pre : Nat) (rs : List RStep) (pos : Nat) : List Item :=
+  turnT (pool pos) sz Gen.C11.contFirstTick pre pos (rs.drop pos)
+
+def initBodyT (cap0 : Option Nat) (sz : Item → Nat) (pre : Nat) (initLogs : List Log) (rs : List RStep) : List Item :=
+  logItems initLogs ++ turnT cap0 sz Gen.C11.initFirstTick (pre + bytes sz (logItems initLogs)) 0 rs
+
+def iterateT (cap0 : Option Nat) (pool : Nat → Option Nat) (sz : Item → Nat) (pre : Nat)
+    (initLogs : List Log) (rs : List RStep) : List Ev :=
+  Http.assemble (Http.parseInit (initBodyT cap0 sz pre initLogs rs))
+    (fun pos => Http.follow (serveT pool sz pre rs) (rs.length + 1) (serveT pool sz pre rs pos))
+
 /-! ## resume token (`_encode_resume_token` / `_decode_resume_token`) -/
 
 abbrev Bytes := List UInt8
